@@ -27,7 +27,7 @@ import (
 func propC25() *simkit.Property {
 	return &simkit.Property{
 		ID: "C25", Level: "exploration", Bubble: true, TapeLimit: 600,
-		Rule: "each run = one storage policy (0-3 REP rules with 1-4 copies, 0-3 EC rules incl. repeated ones, node lists of 1-2x the needed size drawn from a pool of 4-9 nodes so that lists overlap, optional initial placement policy with per-rule limits / total cap / prefer-local, local node inside some lists or outside) and one object (node-sliced regular, client-sealed regular, client-made EC part, LOCK, TOMBSTONE) put through the real Service.Put stream; every per-node delivery parks at a gate, the seeded scheduler picks completion order and per-node outcome (ok, 4 error kinds, ack lost, slow, very slow, timeout at the caller's deadline); the result of Close is judged against the recorded acknowledgements. distinct = trace digest; non-trivial = >=1 delivery did not succeed, or a node shared by two lists was used, and >=3 deliveries happened",
+		Rule: "each run = one storage policy (0-3 REP rules with 1-4 copies, 0-3 EC rules incl. repeated ones (in 6% of the runs instead one wide EC rule of 16-22 parts over a pool of 18-23 nodes), node lists of 1-2x the needed size drawn from a pool of 4-9 nodes so that lists overlap, optional initial placement policy with per-rule limits / total cap / prefer-local, local node inside some lists or outside) and one object (node-sliced regular, client-sealed regular, client-made EC part, LOCK, TOMBSTONE) put through the real Service.Put stream; every per-node delivery parks at a gate, the seeded scheduler picks completion order and per-node outcome (ok, 4 error kinds, ack lost, slow, very slow, timeout at the caller's deadline); the result of Close is judged against the recorded acknowledgements. distinct = trace digest; non-trivial = >=1 delivery did not succeed, or a node shared by two lists was used, and >=3 deliveries happened",
 		Run:  runC25,
 		Assumptions: []string{
 			"a node acknowledges storage = the seam call (local ObjectStorage.Put / Transport.SendReplicationRequestToNode / client PUT stream Close) returned nil",
@@ -98,6 +98,17 @@ func c25KindName(k int) string {
 
 func c25GenPolicy(r *simkit.R, pool int) *c25Policy {
 	p := &c25Policy{}
+	if pool >= 18 {
+		// a single wide EC rule (more parts than any fixed small worker limit)
+		e := [2]int{12 + r.Intn(5), 4 + r.Intn(3)}
+		for e[0]+e[1] > pool {
+			e[0]--
+		}
+		p.ec = append(p.ec, e)
+		n := e[0] + e[1]
+		p.lists = append(p.lists, r.Perm(pool)[:n+r.Intn(pool-n+1)])
+		return p
+	}
 	nr, ne := 0, 0
 	switch r.Weighted(5, 2, 3) {
 	case 0:
@@ -181,6 +192,10 @@ type c25Ack struct {
 func runC25(r *simkit.R) {
 	k := simkit.NewKernel(r)
 	pool := 4 + r.Intn(6)
+	if r.Bool(6) {
+		pool = 18 + r.Intn(6)
+		r.Probe("wide EC rule (17-22 parts)")
+	}
 	pol := c25GenPolicy(r, pool)
 	localIdx := r.Intn(pool + 1)
 	if localIdx == pool {
